@@ -960,7 +960,7 @@ def summarize(cases, records, tier):
     }
     cov["head_override_full_runs"] = int(tot.get("head_override_full_runs", 0))
     cov["herd_simulations_seen_with_override"] = int(tot.get("herd_simulations_seen_with_override", 0))
-    for need in ("values", "unknown_values", "missing_keys", "overrides", "head_overrides", "ordered_pairs", "same_family_pairs", "e2e_rejections", "head_override_full_runs"):
+    for need in ("values", "unknown_values", "missing_keys", "overrides", "head_overrides", "ordered_pairs", "same_family_pairs", "e2e_rejections", "head_override_full_runs", "countries_through_runner", "scale_set_twice"):
         if tot.get(need, 0) == 0:
             cov["inconclusive_reason"] = "nothing evaluated for " + need
     return cov
